@@ -740,7 +740,9 @@ impl LZDiff {
 
     /// Check if byte is a literal
     fn is_literal(&self, c: u8) -> bool {
-        (b'A'..=b'A' + 20).contains(&c) || c == b'!'
+        // The encoder emits b'A' + code for every symbol code it is given, up to the
+        // unknown-letter code 30 (b'_'); none of these bytes is used by another token.
+        (b'A'..=b'A' + 30).contains(&c) || c == b'!'
     }
 
     /// Decode a literal
